@@ -89,9 +89,12 @@ def shortest_path(mesh : Mesh, start : int, targets : list, weights = "length", 
     paths_list = dict([(t, []) for t in targets])
     for t in targets:
         v = t
-        while v != start:
+        while v != start and v is not None:
             paths_list[t].append(v)
             v = path[v]
+        if v is None: # t is not connected to start : no path (the other targets keep theirs)
+            paths_list[t] = []
+            continue
         paths_list[t].append(start)
         paths_list[t].reverse()
     
